@@ -193,6 +193,39 @@ def check_debug(case):
                     redo = d.methods[k](model, d.inputs[k])
                     require(_eq(redo, d.outputs[k]), "debug:record-not-truthful", "%s.%s: recorded output is not what the model returns on the recorded input" % (
                         type(model).__name__, k), facts)
+    # the caller's batch object is refilled in place and passed again (a buffer re-used between two batches): the answer follows the
+    # content, the records describe the second call
+    if methods and len(data) >= 2 * case["batch"]:
+        m0 = methods[-1]
+        nb = case["batch"]
+        if hasattr(data, "iloc"):
+            buf = data.iloc[:nb].copy()
+            getattr(pipe, m0)(buf)
+            buf.iloc[:, :] = data.iloc[-nb:].values
+        else:
+            buf = np.array(data[:nb], copy=True)
+            getattr(pipe, m0)(buf)
+            buf[:] = data[-nb:]
+        out2 = getattr(pipe, m0)(buf)
+        require(_eq(out2, getattr(ref, m0)(buf)), "debug:output-changed:same-object-refilled:" + m0,
+                "called again with the same batch object holding other rows, the altered pipeline answers differently from the untouched copy", facts)
+        dbg = getattr(pipe, "_debug", None)
+        require(dbg is not None and _eq(dbg.inputs[m0], buf) and _eq(dbg.outputs[m0], out2), "debug:root-record-wrong:same-object-refilled", "", facts)
+        if isinstance(pipe, Pipeline):
+            steps = [s_ for _, s_ in pipe.steps if not isinstance(s_, str) and s_ is not None]
+            prev_out = None
+            for j, s_ in enumerate(steps):
+                sd = getattr(s_, "_debug", None)
+                key = "transform" if (j < len(steps) - 1 or m0 == "transform") else m0
+                if sd is None or key not in sd.inputs:
+                    break
+                if j > 0:
+                    require(_eq(sd.inputs[key], prev_out), "debug:steps-do-not-chain:same-object-refilled",
+                            "input recorded by step %d is not the output recorded by step %d" % (j, j - 1), facts)
+                if not isinstance(s_, (Pipeline, FeatureUnion)):
+                    require(_eq(sd.methods[key](s_, sd.inputs[key]), sd.outputs[key]), "debug:record-not-truthful:same-object-refilled",
+                            "step %d: the recorded output is not what the step returns on its recorded input" % j, facts)
+                prev_out = sd.outputs[key]
     # a deep copy of the instrumented pipeline is an instrumented pipeline of its own: what it is called with lands in ITS records and the
     # first pipeline's records keep describing the first pipeline's last call
     if methods and len(batches[0]) != len(batches[1]):
